@@ -54,6 +54,96 @@ def const_str(node, what):
     return node.value
 
 
+STATE_FIELDS = ["protocol", "object", "sockname", "host", "port"]
+
+
+def _self_attr(node, who="self"):
+    if isinstance(node, ast.Attribute) and isinstance(node.value, ast.Name) and node.value.id == who:
+        return node.attr
+    return None
+
+
+def _is_getstate_call(node, who):
+    return (isinstance(node, ast.Call) and not node.args and not node.keywords and isinstance(node.func, ast.Attribute)
+            and node.func.attr == "__getstate__" and isinstance(node.func.value, ast.Name) and node.func.value.id == who)
+
+
+def _strip_doc(body):
+    if body and isinstance(body[0], ast.Expr) and isinstance(body[0].value, ast.Constant) and isinstance(body[0].value.value, str):
+        return body[1:]
+    return body
+
+
+def eq_structure(fn, state):
+    """-> (exact, fields): exact = `if not isinstance(other, URI): return False; return <A> == <B>` where A/B are the two
+    __getstate__() tuples or tuples of the same plain attributes of self/other; fields = what is compared (state positions).
+    Anything else (extra branches, normalised fields, other operators): (False, fields that could still be identified)."""
+    body = _strip_doc(fn.body)
+    other = fn.args.args[1].arg if len(fn.args.args) == 2 else None
+    if other is None or len(body) != 2:
+        return False, []
+    g, r = body
+    ok_guard = (isinstance(g, ast.If) and not g.orelse and isinstance(g.test, ast.UnaryOp) and isinstance(g.test.op, ast.Not)
+                and isinstance(g.test.operand, ast.Call) and getattr(g.test.operand.func, "id", None) == "isinstance"
+                and len(g.test.operand.args) == 2 and getattr(g.test.operand.args[0], "id", None) == other
+                and getattr(g.test.operand.args[1], "id", None) == "URI"
+                and len(g.body) == 1 and isinstance(g.body[0], ast.Return) and isinstance(g.body[0].value, ast.Constant)
+                and g.body[0].value.value is False)
+    if not ok_guard or not (isinstance(r, ast.Return) and isinstance(r.value, ast.Compare) and len(r.value.ops) == 1
+                            and isinstance(r.value.ops[0], ast.Eq)):
+        return False, []
+    a, b = r.value.left, r.value.comparators[0]
+    if _is_getstate_call(a, "self") and _is_getstate_call(b, other) or _is_getstate_call(a, other) and _is_getstate_call(b, "self"):
+        return True, list(range(len(state)))
+    if isinstance(a, ast.Tuple) and isinstance(b, ast.Tuple) and len(a.elts) == len(b.elts):
+        fa = [_self_attr(e, "self") for e in a.elts]
+        fb = [_self_attr(e, other) for e in b.elts]
+        if fa == fb and all(f in state for f in fa):
+            return True, [state.index(f) for f in fa]
+        names = [f for f in fa if f in state]
+        return False, [state.index(f) for f in names]
+    return False, []
+
+
+def hash_structure(fn, state):
+    """-> (exact, fields): exact = hash(self.__getstate__()), or hash of a tuple of plain self attributes, or the unpacked
+    state tuple re-packed (a set-valued element may be wrapped in frozenset)."""
+    body = _strip_doc(fn.body)
+    if not body or not isinstance(body[-1], ast.Return):
+        return False, []
+    ret = body[-1].value
+    if not (isinstance(ret, ast.Call) and getattr(ret.func, "id", None) == "hash" and len(ret.args) == 1 and not ret.keywords):
+        return False, []
+    arg = ret.args[0]
+    if len(body) == 1:
+        if _is_getstate_call(arg, "self"):
+            return True, list(range(len(state)))
+        if isinstance(arg, ast.Tuple):
+            fa = [_self_attr(e, "self") for e in arg.elts]
+            if all(f in state for f in fa):
+                return True, [state.index(f) for f in fa]
+        return False, []
+    # names = self.__getstate__() ; [if isinstance(x, set): x = frozenset(x)]* ; return hash((names...))
+    first = body[0]
+    if not (isinstance(first, ast.Assign) and len(first.targets) == 1 and isinstance(first.targets[0], ast.Tuple)
+            and all(isinstance(e, ast.Name) for e in first.targets[0].elts) and _is_getstate_call(first.value, "self")
+            and len(first.targets[0].elts) == len(state)):
+        return False, []
+    names = [e.id for e in first.targets[0].elts]
+    for st in body[1:-1]:
+        ok = (isinstance(st, ast.If) and not st.orelse and isinstance(st.test, ast.Call) and getattr(st.test.func, "id", None) == "isinstance"
+              and len(st.test.args) == 2 and getattr(st.test.args[0], "id", None) in names and getattr(st.test.args[1], "id", None) == "set"
+              and len(st.body) == 1 and isinstance(st.body[0], ast.Assign) and len(st.body[0].targets) == 1
+              and getattr(st.body[0].targets[0], "id", None) == st.test.args[0].id
+              and isinstance(st.body[0].value, ast.Call) and getattr(st.body[0].value.func, "id", None) == "frozenset"
+              and len(st.body[0].value.args) == 1 and getattr(st.body[0].value.args[0], "id", None) == st.test.args[0].id)
+        if not ok:
+            return False, []
+    if not (isinstance(arg, ast.Tuple) and all(isinstance(e, ast.Name) and e.id in names for e in arg.elts)):
+        return False, []
+    return True, [names.index(e.id) for e in arg.elts]
+
+
 @generator("GenUri", "Pyro5/core.py", "Pyro5/configure.py")
 def gen_uri(tree):
     mod, _ = parse(tree, "Pyro5/core.py")
@@ -89,12 +179,33 @@ def gen_uri(tree):
              and isinstance(n.targets[0], ast.Attribute) and n.targets[0].attr == "NS_PORT"
              and isinstance(n.value, ast.Constant) and isinstance(n.value.value, int)]
     need(len(ports) == 1, "configure.py: self.NS_PORT = <int> not found exactly once")
+    # __getstate__ / __eq__ / __ne__ / __hash__ : which state fields equality compares and which the hash covers
+    gs = _strip_doc(find_func(mod, "__getstate__", "URI").body)
+    need(len(gs) == 1 and isinstance(gs[0], ast.Return) and isinstance(gs[0].value, ast.Tuple),
+         "URI.__getstate__ is not `return <tuple of self attributes>`")
+    state = [_self_attr(e) for e in gs[0].value.elts]
+    need(state == STATE_FIELDS, "URI.__getstate__ does not return (protocol, object, sockname, host, port): %r" % (state,))
+    eq_exact, eq_fields = eq_structure(find_func(mod, "__eq__", "URI"), state)
+    hash_exact, hash_fields = hash_structure(find_func(mod, "__hash__", "URI"), state)
+    ne = _strip_doc(find_func(mod, "__ne__", "URI").body)
+    ne_is_not_eq = (len(ne) == 1 and isinstance(ne[0], ast.Return) and isinstance(ne[0].value, ast.UnaryOp)
+                    and isinstance(ne[0].value.op, ast.Not) and isinstance(ne[0].value.operand, ast.Call)
+                    and isinstance(ne[0].value.operand.func, ast.Attribute) and ne[0].value.operand.func.attr == "__eq__"
+                    and _self_attr(ne[0].value.operand.func) == "__eq__" and len(ne[0].value.operand.args) == 1)
     ws, intws, dz = unicode_tables()
     out = HEADER % "Pyro5/core.py, Pyro5/configure.py and the interpreter's Unicode tables"
     out += "(* uriRegEx = %s *)\n" % uri_rx.replace("*)", "* )")
     out += "Definition uri_regex_src : list N := %s.\n" % ctext(uri_rx)
     out += "(* ipv6 location pattern = %s *)\n" % ip6_rx.replace("*)", "* )")
     out += "Definition ipv6_regex_src : list N := %s.\n" % ctext(ip6_rx)
+    out += "(* state tuple positions: 0 protocol, 1 object, 2 sockname, 3 host, 4 port *)\n"
+    out += "(* __eq__ is `not a URI -> False; else <tuple> == <tuple>` over plain fields (no extra branch, no normalisation) *)\n"
+    out += "Definition eq_exact : bool := %s.\n" % ("true" if eq_exact else "false")
+    out += "Definition eq_fields : list N := %s.\n" % clist([cN(i) for i in eq_fields])
+    out += "(* __hash__ is hash(<tuple>) over plain fields (a set-valued field may be frozen) *)\n"
+    out += "Definition hash_exact : bool := %s.\n" % ("true" if hash_exact else "false")
+    out += "Definition hash_fields : list N := %s.\n" % clist([cN(i) for i in hash_fields])
+    out += "Definition ne_is_not_eq : bool := %s.\n" % ("true" if ne_is_not_eq else "false")
     out += "Definition ns_port_default : Z := %s.\n" % cZ(ports[0])
     out += "(* code points with str.isspace() (= what \\s matches) *)\n"
     out += "Definition ws_table : list N := %s.\n" % clist([cN(c) for c in ws])
@@ -103,7 +214,8 @@ def gen_uri(tree):
     out += "(* first code point of every block of ten decimal digits (\\d, int()) *)\n"
     out += "Definition dzero_table : list N := %s.\n" % clist([cN(c) for c in dz])
     return out, {"uri_regex": uri_rx, "ipv6_regex": ip6_rx, "ns_port": ports[0], "literals": lits, "slices": slices,
-                 "n_ws": len(ws), "n_intws": len(intws), "n_dzero": len(dz),
+                 "eq_exact": eq_exact, "eq_fields": eq_fields, "hash_exact": hash_exact,
+                 "hash_fields": hash_fields, "ne_is_not_eq": ne_is_not_eq, "n_ws": len(ws), "n_intws": len(intws), "n_dzero": len(dz),
                  "ast_sha": {"__init__": ast_sha(init), "_parseLocation": ast_sha(ploc),
                              "location": ast_sha(find_func(mod, "location", "URI")),
                              "__str__": ast_sha(find_func(mod, "__str__", "URI"))}}
